@@ -27,7 +27,13 @@ def _main(prop, path):
     kind = doc.get("kind")
     if kind == "schedule":
         from . import explorer
-        x = explorer.replay(doc["scenario"], doc["cfg"], doc["choices"], names=doc.get("names"))
+        if doc.get("inject"):
+            import importlib
+            from .harness import Run
+            inj = importlib.import_module(doc["inject"]).inject
+            Run.inject_fault = lambda self, stub, f: inj(self, stub, f)
+        x = explorer.replay(doc["scenario"], doc["cfg"], doc["choices"], names=doc.get("names"),
+                            timer_choice=bool(doc.get("inject")))
         for ev in x.run.trace:
             print("   ", ev)
         print("result:", x.result)
